@@ -39,8 +39,11 @@ def check(ctx):
         hd = handles(a, cls)
         ping = hd.ping
         stored = eng.init_heap.get((ping, "pdu"))
+        # ... or kept where every other request keeps its wire image: in the object's own .encoded, filled by the encode() of the constructor
+        init_enc = [e for e in eng.init_events if e.kind == "ENCODE" and e.a.get("ok") and e.a["obj"] == ping]
+        in_encoded = stored is None and len(init_enc) == 1
         ctx.ob("Q2", "%s the PINGREQ packet is encoded once in the constructor" % cq,
-               isinstance(stored, tuple) and stored[0] == "encres" and stored[1] == ping, where=cls.module.path,
+               (isinstance(stored, tuple) and stored[0] == "encres" and stored[1] == ping) or in_encoded, where=cls.module.path,
                construct="%s/pingreq/stored" % cls.qual, nontrivial=False, msg="stored PINGREQ bytes are %s" % show(stored))
         # ---------------- Q1 ----------------
         starts = []
@@ -122,7 +125,7 @@ def check(ctx):
                 ctx.ob("Q5", "%s PINGREQ written only from the periodic call / ping() while CONNECTED (%s)" % (cq, tr.label()), okc,
                        where=where(e), function=e.func, construct="%s/pingreq-context/%s" % (e.func, tr.label()),
                        msg="PINGREQ written in context %s" % tr.label())
-                ctx.ob("Q2", "%s PINGREQ write sends exactly the stored bytes" % cq, e.a["data"] == stored, where=where(e), function=e.func,
+                ctx.ob("Q2", "%s PINGREQ write sends exactly the stored bytes" % cq, e.a["data"] == stored or (in_encoded and (how, obj) == ("encoded", ping)), where=where(e), function=e.func,
                        construct="%s/pingreq-bytes" % e.func, msg="PINGREQ routine writes %s" % show(e.a["data"]))
                 ws = [x for x in tr.events if x.kind == "WRITE"]
                 arms = [x for x in tr.events if x.kind == "ARM"]
